@@ -94,7 +94,7 @@ func GenMuxSpec(r *RNG, maxFrames int) MuxSpec {
 			s.WithAlph = r.Pct(70)
 		}
 		switch s.Img.Type {
-		case "paletted", "nrgba64", "sub", "gray", "ycbcr":
+		case "paletted", "nrgba64", "sub", "gray", "ycbcr", "nrgba64sub", "palsub", "rgbasub", "graysub":
 			s.Img.Type = "nrgba"
 		}
 		m.Srcs = append(m.Srcs, s)
